@@ -217,8 +217,8 @@ Step == ClassifyPass \/ (\E up \in {0, 1} : Distribute(up)) \/ Draw
 Pre(i) == Avail(i) >= i.n
 
 NCells(i) == NRows(i) * i.n
-CellText(i, c) == i.rows[(c - 1) \div i.n + 1][(c - 1) % i.n + 1]
-ColOfCell(i, c) == (c - 1) % i.n + 1
+CellText(i, c) == i.rows[(c - 1) \div i.n + 1][((c - 1) % i.n) + 1]
+ColOfCell(i, c) == ((c - 1) % i.n) + 1
 
 \* no line is wider than the terminal
 Fits(i, L) == \A j \in 1..Len(L) : Len(L[j]) <= i.T
